@@ -112,6 +112,9 @@ class C09(Prop):
                 if cfg[0] == "Circuit" and cfg[2] != "orig":
                     cfg = ("Circuit", cfg[1], "orig")
                 yield {"k": "circuit", "items": items, "n": n, "cfg": list(cfg), "pkg": "py", "wide": True}
+            # the same with numpy integer qubit labels, both packages
+            yield {"k": "circuit", "items": items, "n": n, "cfg": list(CONFIGS[(t * 4) % len(CONFIGS)]), "pkg": "py", "wide": True, "labels": ("int64", "int32", "uint8")[t % 3]}
+            yield {"k": "circuit", "items": items, "n": n, "cfg": list(TCONFIGS[(t * 2) % len(TCONFIGS)]), "pkg": "torch", "wide": True, "labels": ("int64", "int32")[t % 2]}
 
     def execute(self, scn, be):
         n = scn.get("n", 3)
@@ -120,7 +123,13 @@ class C09(Prop):
         rec = {"op": "circuit", "n": n, "cls": cls, "mode": mode, "variant": variant,
                "prog": [circ.wire_item(it) for it in items], "probes": []}
         try:
-            c, orig, gates = circ.build(be, items, n, cls, mode, variant)
+            circ.LABEL_TYPE[0] = scn.get("labels")
+            try:
+                c, orig, gates = circ.build(be, items, n, cls, mode, variant)
+            finally:
+                circ.LABEL_TYPE[0] = None
+            if scn.get("labels"):
+                rec["labels"] = scn["labels"]
             rec["layout"] = circ.layout_of(c, orig, gates)
             gens, lst, st = probes_for(n)
             for kind, ins in (("map", gens), ("list", lst), ("state", st)):
